@@ -318,6 +318,31 @@ Proof.
   unfold data_of. change (1 + k)%nat with (S k). destruct (find _ (c0 :: pre')); reflexivity.
 Qed.
 
+(* what the loader reports for a set of distinct, in-range chunks all announcing n: the profile when all
+   n are there, an error when some are missing, no profile when there is none *)
+Definition icc_result (cs : list chunk) (n : nat) : icc_res :=
+  if Nat.eqb (length cs) n then icc_of_buffer (spec cs n) else match cs with [] => IccNone | _ => IccErr end.
+
+Lemma finish_short n pre s : good n pre s -> (length pre < n)%nat -> js_found s = true ->
+  js_finish s = Ok {| md_format := JPEG; md_w := js_w s; md_h := js_h s; md_bits := js_bits s;
+                      md_icc := match pre with [] => IccNone | _ => IccErr end |}.
+Proof.
+  intros (He & Hc & H0 & H1) Hlen Hf. unfold js_finish. rewrite Hf. cbn [negb].
+  destruct pre as [|c0 pre'].
+  - rewrite (H0 eq_refl), Hc, He. reflexivity.
+  - destruct (H1 ltac:(discriminate)) as (sl & Esl & Lsl & _). rewrite Esl, Hc.
+    replace (lenN sl =? lenN (c0 :: pre')) with false by (unfold lenN; cbn [length] in *; lia). reflexivity.
+Qed.
+Lemma finish_gen n pre s : (1 <= n)%nat -> good n pre s -> (length pre <= n)%nat -> js_found s = true ->
+  js_finish s = Ok {| md_format := JPEG; md_w := js_w s; md_h := js_h s; md_bits := js_bits s;
+                      md_icc := icc_result pre n |}.
+Proof.
+  intros Hn Hg Hlen Hf. unfold icc_result. destruct (Nat.eq_dec (length pre) n) as [E|E].
+  - rewrite E, Nat.eqb_refl. apply finish_good; assumption.
+  - replace (Nat.eqb (length pre) n) with false by (symmetry; apply Nat.eqb_neq; exact E).
+    apply (finish_short n); [exact Hg | lia | exact Hf].
+Qed.
+
 (* items of a file that carries a profile *)
 Inductive jitem :=
 | JOther (it : item)
@@ -379,17 +404,17 @@ Lemma run_good n fr : (1 <= n <= 255)%nat -> forall rest pre s,
   Forall jitem_ok rest ->
   (forall c, In c (pre ++ chunks_of rest) -> ctotal c = N.of_nat n /\ 1 <= cseq c <= N.of_nat n /\ cseq c < 256) ->
   NoDup (map cseq (pre ++ chunks_of rest)) ->
-  length (pre ++ chunks_of rest) = n ->
+  (length (pre ++ chunks_of rest) <= n)%nat ->
   ((js_found s = false /\ sofs_of rest = [fr]) \/ (frame_is s fr /\ sofs_of rest = [])) ->
   fst (js_run s (map enc rest))
   = Ok {| md_format := JPEG; md_w := fst (fst fr); md_h := snd (fst fr); md_bits := snd fr;
-          md_icc := icc_of_buffer (spec (pre ++ chunks_of rest) n) |}.
+          md_icc := icc_result (pre ++ chunks_of rest) n |}.
 Proof.
   intros Hn255. assert (Hn : (1 <= n)%nat) by lia.
   induction rest as [|j rest IH]; intros pre s Hg Hok Hall Hnd Hlen Hfr.
   - cbn [map js_run fst chunks_of] in *. rewrite app_nil_r in *.
     destruct Hfr as [[_ Hx]|[(Hf & Hw & Hh & Hb) _]]; [discriminate|].
-    rewrite (finish_good n pre s Hn Hg Hlen Hf), Hw, Hh, Hb. reflexivity.
+    rewrite (finish_gen n pre s Hn Hg Hlen Hf), Hw, Hh, Hb. reflexivity.
   - pose proof (Forall_inv Hok) as Hj. pose proof (Forall_inv_tail Hok) as Hok'.
     destruct j as [it|t p h1 h2 w1 w2 more|c].
     + cbn [map enc js_run chunks_of sofs_of] in *. rewrite js_next_neutral by exact Hj.
@@ -405,7 +430,7 @@ Proof.
       * cbn [fst]. destruct (js_all_good n pre s' Hg' Ea) as [Hf Hl].
         assert (chunks_of rest = []) by (rewrite app_length in Hlen; apply length_zero_iff_nil; lia).
         rewrite H, app_nil_r. rewrite (finish_good n pre s' Hn Hg' Hl Hf).
-        destruct Hfs as (_ & Hw & Hh & Hb). rewrite Hw, Hh, Hb. reflexivity.
+        destruct Hfs as (_ & Hw & Hh & Hb). rewrite Hw, Hh, Hb. unfold icc_result. rewrite Hl, Nat.eqb_refl. reflexivity.
       * apply IH; try assumption. right. split; assumption.
     + cbn [map enc js_run chunks_of sofs_of fst snd] in *.
       assert (Hc : ctotal c = N.of_nat n /\ 1 <= cseq c <= N.of_nat n /\ cseq c < 256)
@@ -428,7 +453,7 @@ Proof.
         destruct (js_all_good n _ s' Hg' Ea) as [Hf Hl].
         assert (chunks_of rest = []) by (rewrite app_length in Hlen; apply length_zero_iff_nil; lia).
         rewrite H, app_nil_r. rewrite (finish_good n _ s' Hn Hg' Hl Hf).
-        destruct Hfr' as [[A _]|[(_ & Hw & Hh & Hb) _]]; [congruence|]. rewrite Hw, Hh, Hb. reflexivity.
+        destruct Hfr' as [[A _]|[(_ & Hw & Hh & Hb) _]]; [congruence|]. rewrite Hw, Hh, Hb. unfold icc_result. rewrite Hl, Nat.eqb_refl. reflexivity.
       * apply IH; assumption.
 Qed.
 
@@ -460,8 +485,32 @@ Proof.
     apply in_map_iff in Hi. destruct Hi as (k & Ek & Hk). apply in_seq in Hk. lia. }
   assert (Hlen : length cs = n).
   { rewrite <- (map_length cseq). rewrite (Permutation_length Hperm), map_length. apply seq_length. }
-  pose proof (run_good n fr Hn jits [] js0 (good_js0 n) Hjok Hrange Hnd Hlen (or_introl (conj eq_refl Hsof))) as R.
-  cbn [app] in R. destruct (js_run js0 (map enc jits)) as [r [unread|]]; exact R.
+  pose proof (run_good n fr Hn jits [] js0 (good_js0 n) Hjok Hrange Hnd ltac:(cbn [app]; fold cs; lia) (or_introl (conj eq_refl Hsof))) as R.
+  cbn [app] in R. fold cs in R. unfold icc_result in R. rewrite Hlen, Nat.eqb_refl in R.
+  destruct (js_run js0 (map enc jits)) as [r [unread|]]; exact R.
+Qed.
+
+(* C06 (JPEG), damaged sets: when some of the n announced chunks are missing (the ones present are
+   distinct, in range and all announce n) the basic metadata still comes back and the profile is
+   reported as an error; with no ICC chunk at all it is reported absent.  Wherever the frame header is. *)
+Theorem jpeg_icc_missing_chunks inflate (jits : list jitem) (n : nat) fr sos body fuel :
+  let cs := chunks_of jits in
+  (1 <= n <= 255)%nat -> (length cs < n)%nat ->
+  NoDup (map cseq cs) -> (forall c, In c cs -> ctotal c = N.of_nat n /\ 1 <= cseq c <= N.of_nat n) ->
+  sofs_of jits = [fr] -> Forall jitem_ok jits ->
+  Forall item_ok (map enc jits) -> seg_ok 0xda sos -> (length jits < fuel)%nat ->
+  fst (run_pure inflate (jpeg_prog fuel) (jpeg_file (map enc jits) sos body))
+  = Ok {| md_format := JPEG; md_w := fst (fst fr); md_h := snd (fst fr); md_bits := snd fr;
+          md_icc := match cs with [] => IccNone | _ => IccErr end |}.
+Proof.
+  intros cs Hn Hlen Hnd Hall Hsof Hjok Hok Hsos Hf.
+  rewrite jpeg_file_run by (try assumption; rewrite map_length; exact Hf).
+  assert (Hrange : forall c, In c cs -> ctotal c = N.of_nat n /\ 1 <= cseq c <= N.of_nat n /\ cseq c < 256).
+  { intros c Hin. destruct (Hall c Hin) as [A B]. repeat split; try assumption; try apply B. lia. }
+  pose proof (run_good n fr Hn jits [] js0 (good_js0 n) Hjok Hrange Hnd ltac:(cbn [app]; fold cs; lia) (or_introl (conj eq_refl Hsof))) as R.
+  cbn [app] in R. fold cs in R. unfold icc_result in R.
+  replace (Nat.eqb (length cs) n) with false in R by (symmetry; apply Nat.eqb_neq; lia).
+  destruct (js_run js0 (map enc jits)) as [r [unread|]]; exact R.
 Qed.
 
 (* non-vacuity: chunk 2 before the frame header, chunk 1 after it, a comment and a non-ICC APP2 between *)
